@@ -1,6 +1,7 @@
 """C06 -- decoded views are faithful and supplied values read back unchanged."""
 from common import Family
 import kernel as K
+import urlfam as UF
 
 PROPERTY = "C06"
 LEVEL = "model_checking"
@@ -40,4 +41,5 @@ def families(tier):
     for qn, un in K.PAIRS:
         for k in range(1, (2 if q else 3) + 1):
             fams.append(Family("roundtrip/%s-%s/n=%d" % (qn, un, k), K.h_roundtrip, dict(qname=qn, uname=un, n=k), backends=("py", "c")))
+    fams += UF.families(UF.h_c06, tier, decoded_only=True)
     return fams
